@@ -29,6 +29,9 @@ func Sequential() {
 	Set(func(mu *sync.RWMutex, write bool) {
 		LockEvents++
 		fsx.CheckRunaway()
+		if mu == nil {
+			return // a scheduling point without a lock
+		}
 		if write {
 			if mu.TryLock() {
 				mu.Unlock()
